@@ -297,7 +297,7 @@ def label_ev(ev, ids):
             except ValueError:
                 return x
         return x
-    if ev.get('kind') in ('msg', 'ptq') and isinstance(a, dict):
+    if ev.get('kind') in ('msg', 'ptq', 'job', 'linv') and isinstance(a, dict) and (a.get('task_ex_id') is not None or a.get('action_ex_id') is not None):
         if a.get('task_ex_id') is not None:
             sid = ids['tk_rev'].get(val(a['task_ex_id']), '')
             t = sid.split('/')[-1].split('#')[0]
